@@ -1404,6 +1404,9 @@ func unmarshalDate(info TypeInfo, data []byte, value interface{}) error {
 			*v = time.Time{}
 			return nil
 		}
+		if len(data) != 4 {
+			return unmarshalErrorf("unmarshal date: the length of the data should be 4 and not %d", len(data))
+		}
 		var origin uint32 = 1 << 31
 		var current uint32 = binary.BigEndian.Uint32(data)
 		timestamp := (int64(current) - int64(origin)) * millisecondsInADay
@@ -1413,6 +1416,9 @@ func unmarshalDate(info TypeInfo, data []byte, value interface{}) error {
 		if len(data) == 0 {
 			*v = ""
 			return nil
+		}
+		if len(data) != 4 {
+			return unmarshalErrorf("unmarshal date: the length of the data should be 4 and not %d", len(data))
 		}
 		var origin uint32 = 1 << 31
 		var current uint32 = binary.BigEndian.Uint32(data)
